@@ -156,7 +156,10 @@ class _Render:
         elif node.fin == "s":
             # four surface forms of a skip, incl. a skip WITHOUT a reason text
             k = node.id % 4
-            if k == 1:
+            if k == 1 and node.id % 8 == 1:
+                # a long reason (anything that shortens or wraps the one-line summary has to cope with it)
+                out.append(f"{p}    tbot.skip('skipping {node.name} because ' + 'the prerequisite is not available on this board; ' * 3)")
+            elif k == 1:
                 out.append(f"{p}    tbot.skip('skipping {node.name}')")
             elif k == 2:
                 out.append(f"{p}    raise tbot.SkipException('skipping {node.name}')")
@@ -292,12 +295,15 @@ def gen_forest(rng, mode, max_nodes=12, max_depth=4):
     if style < 0.16:
         # a chain: one exception travelling up through every form and guard
         depth = rng.randint(2, max_depth + 1)
+        if rng.random() < 0.12:
+            depth = rng.randint(9, 15)                 # a deep chain (nesting levels beyond 10)
         leaf_fin = _pick(rng, [("x", 35), ("s", 25), ("k", 35), ("p", 5)])
         node = None
         nodes = []
         for lvl in range(depth):
             n = Node("n" if (cli and lvl == 0) else _pick(rng, GUARD_W),
-                     _pick(rng, [("d", 60), ("m", 40)]) if (cli and lvl == 0) else _pick(rng, FORM_W),
+                     # (deep chains use the function forms only: Python limits statically nested blocks)
+                     _pick(rng, [("d", 60), ("m", 40)]) if ((cli and lvl == 0) or depth > 6) else _pick(rng, FORM_W),
                      next(counter), "p")
             nodes.append(n)
         for a, b in zip(nodes, nodes[1:]):
@@ -327,7 +333,7 @@ def gen_forest(rng, mode, max_nodes=12, max_depth=4):
 
 
 def gen_case(rng, mode):
-    nest0 = rng.choice([0, 0, 1, 2, 5]) if mode == "ip" else 0
+    nest0 = rng.choice([0, 0, 1, 2, 5, 8, 30]) if mode == "ip" else 0
     return Case(mode, nest0, gen_forest(rng, mode))
 
 
